@@ -145,8 +145,15 @@ func c16Program(g *prog.Gen, idx int) []*prog.Op {
 			o = &prog.Op{Kind: "getBucketPolicy", B: b}
 		case r < 52:
 			o = &prog.Op{Kind: "deleteBucketPolicy", B: b}
-		case r < 58:
+		case r < 55:
 			o = &prog.Op{Kind: "putBucketAcl", B: b, Canned: g.R.Pick([]string{"private", "public-read", "public-read-write"})}
+		case r < 58:
+			// grant headers: 1–4 (permission, account) pairs, the same account often under several permissions
+			o = &prog.Op{Kind: "putBucketAclGrants", B: b}
+			accs := []string{"usr1", "usr2", "up1"}
+			for i := 1 + g.R.Intn(4); i > 0; i-- {
+				o.Grants = append(o.Grants, [2]string{g.R.Pick([]string{"FULL_CONTROL", "READ", "READ_ACP", "WRITE", "WRITE_ACP"}), accs[g.R.Intn(2+g.R.Intn(2))]})
+			}
 		case r < 63:
 			o = &prog.Op{Kind: "getBucketAcl", B: b}
 		case r < 68:
